@@ -11,7 +11,8 @@ RULE = ("every 2-input <=2-gate circuit (sampled) and seeded random lint-clean c
         "unconnected input pins, escaped identifiers, synthetic-looking names; both writer styles; a sample also "
         "through to_file/from_file; io, registry, per-pin nets, function at every output and bb_input pin (all "
         "valuations), and graph identity when there are no constants and behavioral=False; non-trivial = circuit "
-        "has a gate")
+        "has a gate"
+        "; plus: nets named tie_hi/tie_lo/tie_a (gate or constant), a non-output constant driving a blackbox input pin")
 BOUND = "circuits <= 14 nodes, <= 9 free signals; 4/16 hash seeds"
 ESC = ["\\a[0]", "\\b[1]", "\\n$1", "\\w-x"]
 SYN_RE = re.compile(r"^(and|or|xor|xnor|not|mux_n|mux_a0|mux_a1|mux_o)_")
